@@ -115,6 +115,18 @@ Theorem C12_b_refuted_before_fix : exists prog filters raw appf imgc fuel calls,
 Proof. exact prefix_b_refuted. Qed.
 Print Assumptions C12_b_refuted_before_fix.
 
+(** the class of changes "serve a cached error of some kinds to a load that did not compute it" (C12-b was: all
+    kinds; the seeded change missed_C13b: the missing-object kinds) breaks the property for EVERY kind *)
+Theorem C12_serving_cached_errors_refuted : forall (serve : N -> bool) (k : N),
+  serve k = true ->
+  exists (prog : tytag -> ref -> comp) (rank : ref -> nat) (fuel : nat) (ty1 ty2 : tytag) (r : ref),
+    acyclic prog rank /\
+    let first := get_gen (cfg_fixed true true) prog serve fuel [] ty1 r init in
+    fst (get_gen (cfg_fixed true true) prog serve fuel [] ty2 r (snd first))
+    <> fst (get no_cache prog fuel [] ty2 r init).
+Proof. exact serving_cached_errors_refuted. Qed.
+Print Assumptions C12_serving_cached_errors_refuted.
+
 (** generated tables of types.rs raw_image_data against the standard's filter classes *)
 Theorem C12_split_table : forall f, In f filter_codes -> is_image_filter f = spec_is_image f.
 Proof. exact split_table. Qed.
